@@ -2,6 +2,7 @@
 from vlib import *
 import conc
 from props.gpcommon import gp_component
+from props import bp_parts
 
 LEVEL = "model_checking"
 ASSUMPTIONS = ["interruption points are the thread's shared-memory accesses and blocking calls (between any two steps of the specification), not machine instructions",
@@ -34,7 +35,12 @@ def run(ctx):
         shutil.rmtree(wd, ignore_errors=True)
     if not q:
         conc.run_component(ctx, gp_component("memb", False, sig_threads=("r1", "u1"), sig_budget=2), ["gp_sig", "gp_sig2"], nseeds=n, nsim=sim)
+    ctx.extra.setdefault("flavors_covered", []).extend(["mb", "memb"])
+    if len(ctx.violations) < conc.MAXV:
+        bp_parts.run_c19(ctx); ctx.extra["flavors_covered"].append("bp")
 
 
 def replay(ctx, path):
+    if bp_parts.is_bp_replay(path):
+        return bp_parts.replay(ctx, path)
     conc.replay(ctx, gp_component("mb", False, sig_threads=("r1",), sig_budget=1), path)
